@@ -180,8 +180,11 @@ class SimpleListWalker(MonitoredList[_T], ListWalker):
     def set_focus(self, position: int) -> None:
         """Set focus position."""
 
-        if not 0 <= position < len(self):
-            raise IndexError(f"No widget at position {position}")
+        try:
+            if not 0 <= position < len(self):
+                raise IndexError(f"No widget at position {position}")
+        except TypeError as exc:
+            raise IndexError(f"No widget at position {position}").with_traceback(exc.__traceback__) from exc
 
         self.focus = position
         self._modified()
@@ -249,7 +252,10 @@ class SimpleFocusListWalker(ListWalker, MonitoredFocusList[_T]):
 
     def set_focus(self, position: int) -> None:
         """Set focus position."""
-        self.focus = position
+        try:
+            self.focus = position
+        except TypeError as exc:
+            raise IndexError(f"No widget at position {position}").with_traceback(exc.__traceback__) from exc
         self._modified()
 
     def next_position(self, position: int) -> int:
